@@ -352,14 +352,14 @@ class Report:
         replay_path = None
         if self.violations:
             rc = 1
-            replay_path = REPLAYS / f"{self.pid}-{self.seed}-{int(time.time())}.json"
+            replay_path = REPLAYS / f"{self.pid}-{self.seed}-{int(time.time())}-{os.getpid()}.json"
             replay_path.write_text(json.dumps(
                 {"property": self.pid, "seed": self.seed, "tier": self.tier,
                  "violations": self.violations[:300], "unproved": self.unproved[:20]}, indent=1, default=str))
             lines.append(f"VIOLATION property={self.pid} replay={replay_path}")
         elif self.unproved:
             rc = 1
-            replay_path = REPLAYS / f"{self.pid}-{self.seed}-{int(time.time())}-unproved.json"
+            replay_path = REPLAYS / f"{self.pid}-{self.seed}-{int(time.time())}-{os.getpid()}-unproved.json"
             replay_path.write_text(json.dumps(
                 {"property": self.pid, "seed": self.seed, "tier": self.tier,
                  "no_failing_input_found": True,
